@@ -104,6 +104,9 @@ func NewLockAudit(c *Ctx, pkg string, guards map[*types.Var]*types.Var, maxVisit
 		if P.InTestFile(f) || P.IsGenerated(f) {
 			continue
 		}
+		if f.Parent() != nil && onlyInvokedInParent(f) {
+			continue // analysed inlined into its parent, with the parent's lockset
+		}
 		la.fns = append(la.fns, f)
 	}
 	inPkg := map[*ssa.Function]bool{}
@@ -157,6 +160,58 @@ func NewLockAudit(c *Ctx, pkg string, guards map[*types.Var]*types.Var, maxVisit
 	la.local()
 	la.propagate()
 	return la
+}
+
+// onlyInvokedInParent: the function literal is only ever called or deferred
+// directly by the function that creates it (never stored, passed or started with go).
+func onlyInvokedInParent(f *ssa.Function) bool {
+	found := false
+	ok := true
+	instrs(f.Parent(), func(in ssa.Instruction) {
+		mc, isMC := in.(*ssa.MakeClosure)
+		if !isMC || mc.Fn != ssa.Value(f) {
+			// a closure without free variables is referenced as a plain function value
+			return
+		}
+		found = true
+		for _, r := range *mc.Referrers() {
+			switch x := r.(type) {
+			case *ssa.Call:
+				if x.Call.Value != ssa.Value(mc) {
+					ok = false
+				}
+			case *ssa.Defer:
+				if x.Call.Value != ssa.Value(mc) {
+					ok = false
+				}
+			case *ssa.DebugRef:
+			default:
+				ok = false
+			}
+		}
+	})
+	if !found {
+		// plain function value: look at direct references
+		if f.Referrers() == nil {
+			return false
+		}
+		for _, r := range *f.Referrers() {
+			switch x := r.(type) {
+			case *ssa.Call:
+				if x.Call.Value != ssa.Value(f) {
+					return false
+				}
+			case *ssa.Defer:
+				if x.Call.Value != ssa.Value(f) {
+					return false
+				}
+			default:
+				return false
+			}
+			found = true
+		}
+	}
+	return found && ok
 }
 
 func (la *LockAudit) addReq(f *ssa.Function, r lockReq, pos string) {
